@@ -261,6 +261,37 @@ Definition do_discard (r : N) (s : st) : st :=
   norm (mkSt seq' cur' (active s) (chan s) (devmode s) (jailmode s) (classic s) (trymode s) (ignoreval s) (cohort s)
              (lastref s) (inhib s) nb' cfg' (rc_del r (revcfg s)) (rem r (mounted s)) (link s)).
 
+(* doDiscardSnap as the list of its effects in order: backend RemoveSnapFiles (when it fails the handler answers
+   state.Retry and is run again from the top), DeleteSnapConfig (last revision only), DiscardRevisionConfig, and, last,
+   Set with the record computed from the state READ AT THE START of the handler.  State writes are not transactional: the
+   effects that happened before a failure stay. *)
+Inductive deffect := ERemoveFiles | EDeleteCfg | EDiscardRevCfg | ESet.
+
+Definition discard_seq (r : N) (s : st) : list N := match seq s with [_] => [] | _ => rem r (seq s) end.
+Definition discard_plan (r : N) (s : st) : list deffect :=
+  [ERemoveFiles] ++ (match discard_seq r s with [] => [EDeleteCfg] | _ => [] end) ++ [EDiscardRevCfg; ESet].
+
+(* s0 = the state the handler read when it started, x = the state being updated *)
+Definition apply_deffect (r : N) (s0 : st) (x : st) (e : deffect) : st :=
+  match e with
+  | ERemoveFiles => mkSt (seq x) (cur x) (active x) (chan x) (devmode x) (jailmode x) (classic x) (trymode x) (ignoreval x)
+                         (cohort x) (lastref x) (inhib x) (nb x) (cfg x) (revcfg x) (rem r (mounted x)) (link x)
+  | EDeleteCfg => mkSt (seq x) (cur x) (active x) (chan x) (devmode x) (jailmode x) (classic x) (trymode x) (ignoreval x)
+                       (cohort x) (lastref x) (inhib x) (nb x) 0 (revcfg x) (mounted x) (link x)
+  | EDiscardRevCfg => mkSt (seq x) (cur x) (active x) (chan x) (devmode x) (jailmode x) (classic x) (trymode x) (ignoreval x)
+                           (cohort x) (lastref x) (inhib x) (nb x) (cfg x) (rc_del r (revcfg x)) (mounted x) (link x)
+  | ESet =>
+      let '(seq', cur') :=
+        match seq s0 with
+        | [_] => ([], 0)
+        | _ => let ns := rem r (seq s0) in (ns, if cur s0 =? r then last ns 0 else cur s0)
+        end in
+      norm (mkSt seq' cur' (active s0) (chan s0) (devmode s0) (jailmode s0) (classic s0) (trymode s0) (ignoreval s0)
+                 (cohort s0) (lastref s0) (inhib s0) (rem r (nb s0)) (cfg x) (revcfg x) (mounted x) (link x))
+  end.
+
+Definition discard_run (r : N) (s0 : st) (es : list deffect) (x : st) : st := fold_left (apply_deffect r s0) es x.
+
 (* the configure hook: writes the snap's configuration if the snap's hook does so *)
 Definition do_configure (o : op) (s : st) : st :=
   if ohookcfg o =? 0 then s else
@@ -475,13 +506,16 @@ Fixpoint tasks_eqb (a b : list task) : bool :=
    the observed state after the change settled *)
 Record ostep := mkStep {
   s_op : op; s_k : nat; s_rset : rsetting; s_classic : bool; s_retain : Z;
-  s_refused : bool; s_chain : list task; s_block : list N; s_copies : N; s_after : st
+  s_refused : bool; s_chain : list task; s_block : list N; s_copies : N;
+  s_inuse : list N;    (* the revisions the boot environment uses during the operation (boot.InUse), [] for an app *)
+  s_after : st
 }.
 
-(* a case: a history played from the empty state *)
-Inductive case := mkCase (steps : list ostep).
+(* a case: a history played from a start state (the empty state, or a seeded installed snap) *)
+Inductive case := mkCase (s0 : st) (steps : list ostep).
 
 Definition no_inuse (_ : N) : bool := false.
+Definition inuse_of (x : ostep) (r : N) : bool := mem r (s_inuse x).
 
 (* the model agrees with one observed step played from state s *)
 Definition step_ok (s : st) (x : ostep) : bool :=
@@ -489,8 +523,8 @@ Definition step_ok (s : st) (x : ostep) : bool :=
   let retain := retain_of (s_rset x) (s_classic x) in
   (retain =? s_retain x)%Z
   && bool_eqb (negb (accepts o s)) (s_refused x)
-  && (if accepts o s then tasks_eqb (tasks_for o s retain no_inuse) (s_chain x) else true)
-  && st_eqb (step o (s_k x) retain no_inuse s) (s_after x)
+  && (if accepts o s then tasks_eqb (tasks_for o s retain (inuse_of x)) (s_chain x) else true)
+  && st_eqb (step o (s_k x) retain (inuse_of x) s) (s_after x)
   && list_eqb (block (s_after x)) (s_block x).
 
 (* the history is followed from the observed states, so every step is judged on its own *)
@@ -500,7 +534,7 @@ Fixpoint steps_ok (s : st) (l : list ostep) : bool :=
   | x :: r => step_ok s x && steps_ok (s_after x) r
   end.
 
-Definition mismatch (c : case) : bool := match c with mkCase l => negb (steps_ok empty l) end.
+Definition mismatch (c : case) : bool := match c with mkCase s0 l => negb (steps_ok s0 l) end.
 
 (* ------------------------------------------------------------------------------------------------ monitors
    written on the observed states only *)
@@ -518,7 +552,7 @@ Fixpoint c10_bad (before : st) (l : list ostep) : bool :=
   | x :: r => c10_step_bad before x || c10_bad (s_after x) r
   end.
 
-Definition monitor_fail (c : case) : bool := match c with mkCase l => c10_bad empty l end.
+Definition monitor_fail (c : case) : bool := match c with mkCase s0 l => c10_bad s0 l end.
 
 (* ------------------------------------------------------------------------------------------------ monitors for C11, C12, C13
    (same case type; each is the property's conclusion evaluated on the implementation's observed states) *)
@@ -538,7 +572,7 @@ Definition c11_ok (a : st) : bool :=
   && (match seq a with [] => (cfg a =? 0) && rc_eqb (revcfg a) [] && (link a =? 0) && negb (active a) | _ => true end).
 
 Definition monitor11_fail (c : case) : bool :=
-  match c with mkCase l => existsb (fun x => negb (c11_ok (s_after x))) l end.
+  match c with mkCase s0 l => negb (c11_ok s0) || existsb (fun x => negb (c11_ok (s_after x))) l end.
 
 (* C13: a completed revert keeps the order of the kept revisions, makes the target current, copies no data and mounts
    nothing, and Block() afterwards is: the revisions after the new current one, minus the ones marked not-blocked (the
@@ -566,19 +600,22 @@ Definition c13_step_bad (before : st) (x : ostep) : bool :=
 
 Fixpoint c13_bad (before : st) (l : list ostep) : bool :=
   match l with [] => false | x :: r => c13_step_bad before x || c13_bad (s_after x) r end.
-Definition monitor13_fail (c : case) : bool := match c with mkCase l => c13_bad empty l end.
+Definition monitor13_fail (c : case) : bool := match c with mkCase s0 l => c13_bad s0 l end.
 
 (* C12: a completed refresh leaves at most max(retain, kept before) revisions; at most retain when the target was not
    kept before; none of the revisions that came after the old current one (except the target); the target is kept and
-   current.  (No revision is in use for booting in the driver's runs: the snap is an app.) *)
+   current; a revision in use for booting (s_inuse) is never discarded, and only such revisions may exceed the bound. *)
 Definition c12_step_bad (before : st) (x : ostep) : bool :=
   let o := s_op x in let a := s_after x in
   match okind o with
   | ORefresh =>
       if s_refused x || negb (Nat.eqb (s_k x) 0) then false else
       let n := Z.of_nat (length (seq before)) in let n' := Z.of_nat (length (seq a)) in
-      (Z.max (s_retain x) n <? n')%Z
-      || (negb (mem (orev o) (seq before)) && (s_retain x <? n')%Z)
+      let kept_inuse := Z.of_nat (length (filter (fun r => mem r (s_inuse x) && negb (r =? orev o)) (seq a))) in
+      (Z.max (s_retain x) n + kept_inuse <? n')%Z
+      || (negb (mem (orev o) (seq before)) && (s_retain x + kept_inuse <? n')%Z)
+      (* a revision in use for booting is never discarded *)
+      || existsb (fun r => mem r (s_inuse x) && negb (mem r (seq a))) (seq before)
       || negb (mem (orev o) (seq a)) || negb (cur a =? orev o)
       || match last_index (cur before) (seq before) with
          | Some i => existsb (fun r => negb (r =? orev o) && mem r (seq a)) (skipn (S i) (seq before))
@@ -596,4 +633,4 @@ Definition c12_retain_bad (x : ostep) : bool :=
         | RNum n | RStr n => if (n =? 0)%Z then true else (s_retain x =? n)%Z
         end).
 Definition monitor12_fail (c : case) : bool :=
-  match c with mkCase l => c12_bad empty l || existsb c12_retain_bad l end.
+  match c with mkCase s0 l => c12_bad s0 l || existsb c12_retain_bad l end.
